@@ -9,7 +9,7 @@ import (
 	"fmt"
 	"io"
 	"net/http"
-	"net/http/httptest"
+	"verifharness/internal/netx"
 
 	"github.com/ipni/go-libipni/apierror"
 	ingestclient "github.com/ipni/go-libipni/ingest/client"
@@ -269,7 +269,7 @@ func RunC18(args []string) *rep.Report {
 	}
 	mux.HandleFunc("/ingest/content", serve("ingest"))
 	mux.HandleFunc("/register", serve("register"))
-	srv := httptest.NewServer(mux)
+	srv := netx.NewServer(mux)
 	defer srv.Close()
 	icl, ierr := ingestclient.New(srv.URL)
 	if ierr != nil {
